@@ -19,36 +19,49 @@ Proof. intros. apply no_deadlock. apply run_inv. apply inv_init. Qed.
 Print Assumptions C09_no_deadlock.
 
 (* 2. ... and never for long: under ANY schedule a task takes at most `progw program` steps in total
-      (8 per write, 10 per open, 3 per close, 9 per iteration of the forwarding loop, 1 otherwise), so every granted step is progress towards the end *)
+      (8 per write, 11 per open, 3 per close, 9 per iteration of the forwarding loop, 1 otherwise), so every granted step is progress towards the end *)
 Theorem C09_bounded_steps : forall progs buf pend sched t,
   t <> rtid -> (steps_of t (init progs buf pend) sched <= progw (nth t progs []))%nat.
 Proof. intros. apply budget. assumption. Qed.
 Print Assumptions C09_bounded_steps.
 
 (* 3. once the session is closed -- by whatever cause -- and nobody is still inside close(), the transport
-      is shut down and both stream tables hold nothing that any caller can reach: an entry left in them was
-      registered by an open_stream call that had examined the closed flag BEFORE close() ran and allocated its
-      id AFTER the drain (the two are not atomic in the code); that call is still in progress (its SYN not yet
-      attempted) or has already failed and dropped the handle (`late_entry`) *)
+      is shut down and the two stream tables (`streams`, `stream_receive_tx`) hold nothing that any caller can reach:
+      open_stream examines the closed flag, allocates the id, inserts the inbound queue into one table and the stream
+      into the other -- four separate steps, no lock spans any two. An entry left in a table of a dead session was
+      inserted by an open_stream call that had examined the flag BEFORE close() ran and did its insert AFTER the
+      drain; that call is still in progress (between its inserts, or with its SYN not yet attempted) or has already
+      failed and dropped the handle (`late_entry`, `late_entry_r`) *)
 Theorem C09_dead_session : forall progs buf pend sched,
   let s := run (init progs buf pend) sched in
   closed s = true -> quiescent_close s ->
-  shut s = true /\ forall sid u, In (sid, u) (table s) -> late_entry s sid u.
+  shut s = true /\
+  (forall sid u, In (sid, u) (table s) -> late_entry s sid u) /\
+  (forall sid u, In (sid, u) (rtable s) -> late_entry_r s sid u).
 Proof. exact (fun progs buf pend sched => dead_session_released sched progs buf pend). Qed.
 Print Assumptions C09_dead_session.
 
+(* 3a. in EVERY state: an inbound queue without a `streams` entry belongs to an open_stream between its two inserts *)
+Theorem C09_tables_consistent : forall progs buf pend sched,
+  half_ok (run (init progs buf pend) sched).
+Proof.
+  intros. apply (run_invariant half_ok); [| apply inv_init | apply half_ok_init].
+  intros s t s' HI Hh H. eapply step_half_ok; eauto.
+Qed.
+Print Assumptions C09_tables_consistent.
+
 (* 3b. ... and every task that holds a stream handle has that stream's inbound queue closed: its reads
        return what was already queued and then end-of-stream; they never park. Exempt: a task whose
-       open_stream is still inside the window above -- it has no handle yet and never gets one (3c) *)
+       open_stream is still inside the windows above -- it has no handle yet and never gets one (3c) *)
 Theorem C09_readers_released : forall progs buf pend sched,
   let s := run (init progs buf pend) sched in
   closed s = true -> quiescent_close s ->
-  forall u sid, t_sid (tasks s u) = Some sid -> t_rclosed (tasks s u) = true \/ in_window (pcof s u) sid.
+  forall u sid, t_sid (tasks s u) = Some sid -> t_rclosed (tasks s u) = true \/ in_window_r (pcof s u) sid.
 Proof. exact (fun progs buf pend sched => dead_session_readers sched progs buf pend). Qed.
 Print Assumptions C09_readers_released.
 
 (* 3c. the concurrent open: an open_stream that registered its stream on an already closed session returns
-       SessionClosed two steps later; nothing is written, the caller holds no handle *)
+       SessionClosed; nothing is written, the caller holds no handle *)
 Theorem C09_concurrent_open_fails : forall s t sid,
   closed s = true -> pcof s t = PO1 sid ->
   exists s1 s2, step s t = Some s1 /\ step s1 t = Some s2 /\
@@ -121,17 +134,19 @@ Proof.
   intros x. destruct x as [|[|[|[|x]]]]; vm_compute; reflexivity.
 Qed.
 
-(* non-vacuity of the window: task 1 passes the closed check of open_stream, task 2 closes the session
-   completely, then task 1 registers stream 1 in the drained table: the session is dead, the entry is there,
-   task 1 is inside the window; two steps later its open has failed and it holds no handle *)
+(* non-vacuity of the windows: task 1 passes the closed check of open_stream, task 2 closes the session
+   completely, then task 1 allocates its id and does its two inserts into the drained tables: the session is dead,
+   the entries are there, task 1 is inside the window; two steps later its open has failed and it holds no handle *)
 Example C09_window_nonvacuous :
   let progs := [[]; [COpen; CRead]; [CClose]] in
-  let s := run (init progs false []) [1;2;2;2;1]%nat in
+  let s1 := run (init progs false []) [1;2;2;2;1]%nat in
+  let s := run s1 [1]%nat in
+  closed s1 = true /\ quiescent_close s1 /\ table s1 = [] /\ rtable s1 = [(1%N, 1%nat)] /\ pcof s1 1%nat = PO0b 1 /\
   closed s = true /\ shut s = true /\ quiescent_close s /\ table s = [(1%N, 1%nat)] /\
   pcof s 1%nat = PO1 1 /\ t_sid (tasks s 1%nat) = Some 1%N /\ t_rclosed (tasks s 1%nat) = false /\
   let s2 := run s [1;1;1]%nat in
   t_res (tasks s2 1%nat) = [ResClosed; ResNoStream] /\ t_sid (tasks s2 1%nat) = None /\ wire s2 = [].
 Proof.
-  cbv zeta. repeat split; try (vm_compute; reflexivity).
-  intros x. destruct x as [|[|[|x]]]; vm_compute; reflexivity.
+  cbv zeta. repeat split; try (vm_compute; reflexivity);
+    intros x; destruct x as [|[|[|x]]]; vm_compute; reflexivity.
 Qed.
